@@ -1,5 +1,6 @@
 (* C15: (c15 expand (("prefix" "ns") ...) "iri") -> ("expanded") | ()
-        (c15 verdict (("prefix" "ns") ...) <ynode> <graph>) -> (ok ("level|name|focus" ...)) | error | unsupported *)
+        (c15 verdict (("prefix" "ns") ...) <ynode> <graph>) -> (ok (("level" "name" "focus" "message template") ...)) | error | unsupported
+        (c15 related <ynode> <ynode>) -> 1 | 0      YamlRewrite.related: the second tree is a key / free-list reordering of the first *)
 open Sexp
 open Model
 open Glue_sem
@@ -18,7 +19,9 @@ let handle (args : t list) : t =
       (match expand_compact (ctx c) (sl iri) with Some s -> L [of_cl s] | None -> L [])
   | [A "verdict"; L c; y; g] ->
       (match verdict (ctx c) (ynode y) (graph g) with
-       | POk l -> L [A "ok"; L (List.map (fun s -> Sexp.S s) (List.sort_uniq compare (List.map (fun ((lv, n), f) -> level_name lv ^ "|" ^ string_of_chars n ^ "|" ^ string_of_chars f) l)))]
+       | POk l -> L [A "ok"; L (List.map (fun (a, b, c, d) -> L [Sexp.S a; Sexp.S b; Sexp.S c; Sexp.S d])
+                               (List.sort_uniq compare (List.map (fun (((lv, n), f), m) -> (level_name lv, string_of_chars n, string_of_chars f, string_of_chars m)) l)))]
        | PError -> A "error"
        | PUnsupported -> A "unsupported")
+  | [A "related"; y; y'] -> if related (ynode y) (ynode y') then A "1" else A "0"
   | _ -> raise (Parse_error "c15 op")
